@@ -16,7 +16,7 @@ def pools(ctx):
     l1 = vlib.level1()
     n_rand = 1500 if ctx.tier == "quick" else 20000
     deep = [vlib.rand_shape(ctx.rng, 4) for _ in range(n_rand)]
-    rel = [(s, vlib.mutate_shape(ctx.rng, s)) for s in deep]
+    rel = [(s, vlib.mutate_shape(ctx.rng, s)) for s in deep] + vlib.structured_pairs(stride=1 if ctx.tier != 'quick' else 3)
     return l1, deep, rel
 
 def run(ctx):
